@@ -52,6 +52,8 @@ fn alphabet() -> Vec<Op> {
         Op::MkdirM(s("/d/m"), 0o700),
         Op::Mkfile(s("/d/g")),
         Op::Mkfile(s("/d/x/g")),
+        Op::Mkfile(s("/d/s/f")), // a child for the directory that remove(/d/s) takes away
+        Op::MkdirP(s("/d/s/k")),
         Op::Remove(s("/d/f")),
         Op::Remove(s("/d/s")),
         Op::Remove(s("/e")),
